@@ -113,12 +113,58 @@ def project_struct_literals(t):
     return t
 
 
+def _top_level(tokens):
+    out, d = [], 0
+    for x in tokens:
+        if x in ("(", "[", "{"):
+            d += 1
+        elif x in (")", "]", "}"):
+            d -= 1
+        elif d == 0:
+            out.append(x)
+    return out
+
+
+PURE_FNS = {}     # name -> (param names, body token text): one-line helper functions, substituted into expressions
+
+
+def inline_pure(t):
+    """f(args) -> body[params := args] for the one-line pure helper functions of the crate (token list in, token list out)"""
+    changed = True
+    rounds = 0
+    while changed and rounds < 5:
+        changed = False
+        rounds += 1
+        for i, x in enumerate(t):
+            if x in PURE_FNS and i + 1 < len(t) and t[i + 1] == "(" and not (i > 0 and t[i - 1] in (".", "::", "fn")):
+                d, j = 0, i + 1
+                while j < len(t):
+                    if t[j] in ("(", "[", "{"):
+                        d += 1
+                    elif t[j] in (")", "]", "}"):
+                        d -= 1
+                        if d == 0:
+                            break
+                    j += 1
+                args = split_top(" ".join(t[i + 2:j]))
+                params, body = PURE_FNS[x]
+                if len(args) != len(params):
+                    continue
+                env = {p_: a for p_, a in zip(params, args)}
+                t = t[:i] + ["("] + toks(" ".join(subst(toks(body), env))) + [")"] + t[j + 1:]
+                changed = True
+                break
+    return t
+
+
 def canon(expr, env=None):
     """Canonical text of an expression: variables replaced by their definitions, reference / deref /
     clone noise dropped, redundant parentheses removed, no blanks."""
     t = toks(expr)
     if env:
         t = toks(" ".join(subst(t, env)))
+    if PURE_FNS:
+        t = inline_pure(t)
     # drop borrow / deref prefixes:  & x, &mut x, * x, ref x  at the start of an operand
     out = []
     for i, x in enumerate(t):
@@ -158,6 +204,11 @@ def canon(expr, env=None):
                 if is_call:
                     continue
                 inner = t[j + 1:i]
+                nxt_tok = t[i + 1] if i + 1 < len(t) else None
+                if len(inner) > 0 and (prev is None or prev in ("(", ",", "[", "=", "|", "{", ":")) and (nxt_tok is None or nxt_tok in (")", ",", "]", ";", "}")) and "," not in _top_level(inner):
+                    t = t[:j] + inner + t[i + 1:]
+                    changed = True
+                    break
                 depth = 0
                 simple = len(inner) > 0
                 # a parenthesised struct literal  ( Path { … } )
@@ -222,6 +273,12 @@ class Atoms:
         self.is_atoms = {}           # scrutinee -> {variant: atom}
         self.enum_of = {}            # scrutinee -> enum name
         self.option_exprs = set(option_exprs)
+        self.ints = {}
+
+    def I(self, name):
+        if name not in self.ints:
+            self.ints[name] = z3.Int("int:" + name)
+        return self.ints[name]
 
     def A(self, name):
         if name not in self.atoms:
@@ -279,12 +336,38 @@ def strip_parens(s):
 class Eval:
     """symbolic evaluation of one unit"""
 
-    def __init__(self, atoms, features, types=None):
+    def __init__(self, atoms, features, types=None, uses=None, units=None, contracted=(), depth=0):
         self.at = atoms
         self.features = features
         self.types = types or {}
         self.mutable = set()
         self.nlet = 0
+        self.uses = uses            # None: first pass (positional names); dict k -> number of uses: second pass
+        self.units = units or {}
+        self.contracted = set(contracted)
+        self.depth = depth
+
+    def new_let(self, val, out, g, line):
+        """a computed value. First pass: positional name. Second pass: used at most once -> substituted;
+        used several times -> one definition named by the hash of its text (order- and name-independent)."""
+        self.nlet += 1
+        k = self.nlet
+        if self.uses is None:
+            ref = "$L%d" % k
+            out.append({"g": g, "kind": "let", "attrs": (ref, val), "children": [], "line": line, "k": k})
+            return ref
+        n = self.uses.get(k, 0)
+        if n == 0 and "?" in val:
+            out.append({"g": g, "kind": "stmt", "attrs": (val,), "children": [], "line": line})
+            return val
+        # substituted unless the value is used several times AND may fail / have an effect (`?`, macro):
+        # then one shared definition keeps "the same value is used in both places" in the normal form
+        if n <= 1 or not ("?" in val or "!" in val):
+            return val
+        import hashlib
+        ref = "$" + hashlib.sha1(val.encode()).hexdigest()[:6]
+        out.append({"g": g, "kind": "let", "attrs": (ref, val), "children": [], "line": line})
+        return ref
 
     # ---- patterns
     def pat_bind(self, pat, value, env):
@@ -302,6 +385,9 @@ class Eval:
         p = " ".join(t)
         if p == "_" or p == "":
             return z3.BoolVal(True)
+        if len(t) > 2 and IDENT.match(t[0]) and t[1] == "@":
+            env[t[0]] = value
+            return self.pat_bind(" ".join(t[2:]), value, env)
         alts = split_top(p, "|")
         if len(alts) > 1:
             conds, envs = [], []
@@ -313,6 +399,8 @@ class Eval:
                 vals = [e.get(v) for e in envs]
                 env[v] = vals[0] if all(x == vals[0] for x in vals) else "alt(" + "|".join(str(x) for x in vals) + ")"
             return z3.Or(*conds)
+        if p == "None":
+            return z3.Not(self.at.some(value))
         if IDENT.match(p):
             if p[0].isupper():   # unit-like constant / variant without path
                 return self.at.is_variant(value, None, p)
@@ -387,6 +475,24 @@ class Eval:
             return z3.Or(*[self.cond(x, env, benv) for x in c["or"]])
         if "and" in c:
             return z3.And(*[self.cond(x, env, benv, bind_env) for x in c["and"]])
+        if "match" in c:
+            on = canon(c["match"]["on"], env)
+            prev, parts = [], []
+            for arm in c["match"]["arms"]:
+                if arm.get("cfg") and not self.cfg_on(arm["cfg"]):
+                    continue
+                e2 = dict(env)
+                pc = self.pat_bind(arm["pat"], on, e2)
+                if arm.get("guard"):
+                    pc = z3.And(pc, self.cond(self.parse_cond(arm["guard"]), e2, benv))
+                gc = z3.And(*([pc] + [z3.Not(x) for x in prev]))
+                prev.append(pc)
+                parts.append(z3.And(gc, self.cond(arm["value"], e2, benv)))
+            return z3.Or(*parts) if parts else z3.BoolVal(False)
+        if "ite" in c:
+            e_then = dict(env)
+            cc = self.cond(c["ite"]["c"], env, benv, bind_env=e_then)
+            return z3.Or(z3.And(cc, self.cond(c["ite"]["t"], e_then, benv)), z3.And(z3.Not(cc), self.cond(c["ite"]["e"], env, benv)))
         if "let" in c:
             val = canon(c["let"]["expr"], env)
             target = bind_env if bind_env is not None else {}
@@ -439,6 +545,24 @@ class Eval:
                     table = {("==", "0"): e, ("!=", "0"): z3.Not(e), (">", "0"): z3.Not(e), (">=", "1"): z3.Not(e), ("<", "1"): e, ("<=", "0"): e}
                     if (op, n) in table:
                         return table[(op, n)]
+                break
+        # integer comparisons against literals, and literal ranges:  X < 1950,  (1950..2050).contains(&X)
+        m = re.match(r'^\(\s*(\d+)\s*(\.\.=?)\s*(\d+)\s*\)\s*\.\s*contains\s*\((.*)\)$', " ".join(tk))
+        if m:
+            x = self.at.I(canon(m.group(4), env))
+            lo, hi = int(m.group(1)), int(m.group(3))
+            return z3.And(x >= lo, x <= hi if m.group(2) == "..=" else x < hi)
+        for i, op in enumerate(tk):
+            if op in ("==", "!=", ">", ">=", "<", "<=") and 0 < i < len(tk) - 1:
+                l, r = tk[:i], tk[i + 1:]
+                lit = lambda ts: len(ts) == 1 and re.match(r'^\d[\d_]*(?:[iu](?:8|16|32|64|128|size))?$', ts[0]) is not None
+                num = lambda ts: int(re.match(r'^\d[\d_]*', ts[0]).group(0).replace("_", ""))
+                if lit(r) and not lit(l) and "(" not in l[:1] + l[-0:0] and not any(x in ("&&", "||") for x in l):
+                    x = self.at.I(canon(" ".join(l), env))
+                    return {"==": x == num(r), "!=": x != num(r), ">": x > num(r), ">=": x >= num(r), "<": x < num(r), "<=": x <= num(r)}[op]
+                if lit(l) and not lit(r) and not any(x in ("&&", "||") for x in r):
+                    x = self.at.I(canon(" ".join(r), env))
+                    return {"==": x == num(l), "!=": x != num(l), ">": num(l) > x, ">=": num(l) >= x, "<": num(l) < x, "<=": num(l) <= x}[op]
                 break
         # X.iter().any(|v| BODY) on an Option
         if "any" in tk:
@@ -529,15 +653,61 @@ class Eval:
         return v
 
     # ---- nodes
+    def try_inline(self, n, env, benv, g):
+        """a call that hands the writer to a local helper function which has no summary contract of its own is
+        replaced by the helper's normal form (so extracting or inlining a private helper does not change the result)"""
+        if self.depth >= 3 or not self.units:
+            return None
+        callee = "".join(toks(n["callee"]))
+        last = callee.split("::")[-1].split(".")[-1]
+        cands = [u for name, u in self.units.items() if name.split("::")[-1] == last and name not in self.contracted and u.get("writer")]
+        if len(cands) != 1:
+            return None
+        u = cands[0]
+        if any("c" in a for a in n["args"]):
+            return None
+        params = [p for p in u["params"]]
+        e2 = {}
+        ai = 0
+        args = list(n["args"])
+        if params and params[0]["name"] == "self":
+            if not n.get("recv"):
+                return None
+            e2["self"] = canon(n["recv"], env)
+            params = params[1:]
+        if len(params) != len(args):
+            return None
+        for p_, a in zip(params, args):
+            if p_["writer"] != ("w" in a):
+                return None
+            if "e" in a:
+                nm = [x for x in toks(p_["name"]) if x not in ("mut", "ref")]
+                if len(nm) != 1:
+                    return None
+                e2[nm[0]] = canon(a["e"], env)
+        sub = Eval(self.at, self.features, uses=None if self.uses is None else {}, units=self.units, contracted=self.contracted, depth=self.depth + 1)
+        # lets inside an inlined helper are always substituted (their numbering is local to the helper)
+        sub.uses = {} if self.uses is not None else None
+        nf, _ = sub.walk(u["body"], e2, {}, g)
+        if self.uses is None:
+            # first pass: make the helper's positional names unique
+            def ren(x):
+                return re.sub(r'\$L(\d+)', lambda m: "$H%d_%s" % (self.depth + 1, m.group(1)), x)
+
+            def fix(nodes):
+                for q in nodes:
+                    q["attrs"] = tuple(ren(a) for a in q["attrs"])
+                    q.pop("k", None)
+                    fix(q["children"])
+            fix(nf)
+        return nf
+
     def merge(self, env, branch_envs, out, g, line):
         """after a branching statement: a mutable variable whose value differs between the branches gets a phi"""
         for v in list(env):
             vals = [e.get(v, env[v]) for e in branch_envs]
             if v in self.mutable and any(x != vals[0] for x in vals[1:]):
-                self.nlet += 1
-                ref = "$L%d" % self.nlet
-                out.append({"g": g, "kind": "let", "attrs": (ref, "phi(%s)" % "|".join(vals)), "children": [], "line": line})
-                env[v] = ref
+                env[v] = self.new_let("phi(%s)" % "|".join(vals), out, g, line)
 
     def walk(self, nodes, env, benv, pc, ret_env=False):
         """returns (normal-form nodes, condition under which control flows past `nodes`);
@@ -555,9 +725,16 @@ class Eval:
                     continue
                 pat = n["pat"]
                 tp = [x for x in toks(pat) if x not in ("mut", "ref")]
-                if ":" in tp and "{" not in tp and "(" not in tp[:tp.index(":")]:
-                    tp = tp[:tp.index(":")]          # `let name: Type = …`
-                    pat = " ".join(tp)
+                depth = 0
+                for qi, q in enumerate(tp):
+                    if q in ("(", "[", "{"):
+                        depth += 1
+                    elif q in (")", "]", "}"):
+                        depth -= 1
+                    elif q == ":" and depth == 0:
+                        tp = tp[:qi]          # `let pattern: Type = …`
+                        pat = " ".join(tp)
+                        break
                 if n.get("skel"):
                     nf, _ = self.walk(n["skel"], env, benv, z3.BoolVal(True))
                     val = "der{" + ";".join(render(x, flat=True) for x in nf) + "}"
@@ -572,20 +749,13 @@ class Eval:
                     is_formula = False
                     # boolean-ish definitions are kept as formulas (they are used in guards, not emitted)
                     try:
-                        f = self.cond(n["cond"], env, benv)
-                        simple = "atom" in n["cond"] and not re.search(r'is_empty|is_some|is_none|matches\s*!|==|!=|^true$|^false$', n["cond"]["atom"])
-                        if not simple:
-                            benv[tp[0]] = f
+                        if boolish(n["cond"]):
+                            benv[tp[0]] = self.cond(n["cond"], env, benv)
                             is_formula = True
                     except Undecided:
                         pass
                     if not is_formula and ("(" in val or "?" in val or "!" in val):
-                        # a computed value: keep ONE definition (sharing and evaluation order are part of the
-                        # normal form), referred to by position so that the local's name does not matter
-                        self.nlet += 1
-                        ref = "$L%d" % self.nlet
-                        out.append({"g": g, "kind": "let", "attrs": (ref, val), "children": [], "line": n.get("line")})
-                        val = ref
+                        val = self.new_let(val, out, g, n.get("line"))
                     env[tp[0]] = val
                     if n.get("mutable"):
                         self.mutable.add(tp[0])
@@ -609,10 +779,7 @@ class Eval:
                 touched = [v for v in self.mutable if v in env and mutated(v)]
                 if touched:
                     for v in touched:
-                        self.nlet += 1
-                        ref = "$L%d" % self.nlet
-                        out.append({"g": g, "kind": "let", "attrs": (ref, "upd(%s|%s)" % (env[v], canon(n["text"], env))), "children": [], "line": n.get("line")})
-                        env[v] = ref
+                        env[v] = self.new_let("upd(%s|%s)" % (env[v], canon(n["text"], env)), out, g, n.get("line"))
                 else:
                     out.append({"g": g, "kind": "stmt", "attrs": (canon(n["text"], env),), "children": [], "line": n.get("line")})
             elif k == "prim":
@@ -624,6 +791,10 @@ class Eval:
                 ch, _ = self.walk(n["body"], env, benv, z3.BoolVal(True))
                 out.append({"g": g, "kind": "tagged", "attrs": ("expl" if n["explicit"] else "impl", canon(n["tag"], env)), "children": ch, "line": n.get("line")})
             elif k == "call":
+                inl = self.try_inline(n, env, benv, g)
+                if inl is not None:
+                    out.extend(inl)
+                    continue
                 args, children = [], []
                 for a in n["args"]:
                     if "w" in a:
@@ -637,7 +808,7 @@ class Eval:
                         children.append({"g": z3.BoolVal(True), "kind": "closure", "attrs": (), "children": ch})
                     else:
                         args.append(canon(a["e"], env))
-                out.append({"g": g, "kind": "call", "attrs": (canon(n["callee"], env),) + tuple(args) + (("?",) if n.get("try") else ()), "children": children, "line": n.get("line")})
+                out.append({"g": g, "kind": "call", "attrs": (canon(n["callee"], env),) + tuple(args), "children": children, "line": n.get("line")})
             elif k == "if":
                 e_then = dict(env)
                 c = self.cond(n["cond"], env, benv, bind_env=e_then)
@@ -678,10 +849,7 @@ class Eval:
                 # variables updated by the loop body carry a loop-dependent value afterwards
                 for v in list(env):
                     if v in e2 and e2[v] != env[v] and v in self.mutable:
-                        self.nlet += 1
-                        ref = "$L%d" % self.nlet
-                        out.append({"g": g, "kind": "let", "attrs": (ref, "after_loop(%s|%s)" % (env[v], it)), "children": [], "line": n.get("line")})
-                        env[v] = ref
+                        env[v] = self.new_let("after_loop(%s|%s)" % (e2[v], it), out, g, n.get("line"))
             elif k == "return":
                 val = canon(n["expr"], env)
                 # `return;` / `return Ok(())` only end the function: their effect is the guard of what follows.
@@ -698,6 +866,23 @@ class Eval:
             else:
                 raise Undecided("unknown skeleton node " + k)
         return out, alive
+
+
+BOOL_RE = re.compile(r'is_empty|is_some|is_none|matches\s*!|==|!=|<=|>=|<|>|\.contains\(|\.any\(|\.all\(|^\s*true\s*$|^\s*false\s*$|^\s*!')
+
+
+def boolish(c):
+    """is this condition tree a boolean-valued expression (so that a `let` of it is a guard definition)?"""
+    if "not" in c or "or" in c or "and" in c or "let" in c:
+        return True
+    if "match" in c:
+        return all(boolish(a["value"]) for a in c["match"]["arms"])
+    if "ite" in c:
+        return boolish(c["ite"]["t"]) and boolish(c["ite"]["e"])
+    t = c.get("atom", "")
+    if "=>" in t or t.strip().startswith(("match ", "if ")) or "{" in t:
+        return False
+    return bool(BOOL_RE.search(t)) and not re.search(r'<[A-Za-z_]', t)
 
 
 def has_emission(n):
@@ -727,6 +912,21 @@ def alpha(text):
                 for q in range(i, len(t)):
                     if out[q] in ren and not (q > 0 and t[q - 1] in (".", "::")):
                         out[q] = ren[out[q]]
+                # `|p| { expr }` and `|p| expr` are the same closure
+                if j + 1 < len(t) and t[j + 1] == "{":
+                    d, e = 0, j + 1
+                    while e < len(t):
+                        if t[e] in ("(", "[", "{"):
+                            d += 1
+                        elif t[e] in (")", "]", "}"):
+                            d -= 1
+                            if d == 0:
+                                break
+                        e += 1
+                    inner = t[j + 2:e]
+                    if e < len(t) and ";" not in inner and "let" not in inner and inner:
+                        out[j + 1] = ""
+                        out[e] = ""
                 i = j
         i += 1
     return "".join(out)
@@ -816,6 +1016,13 @@ def fmt_guard(g, theory=()):
 
 
 def pretty(e):
+    if z3.is_app(e) and e.decl().kind() in (z3.Z3_OP_LE, z3.Z3_OP_GE, z3.Z3_OP_LT, z3.Z3_OP_GT, z3.Z3_OP_EQ) and e.num_args() == 2 and z3.is_int(e.arg(0)):
+        op = {z3.Z3_OP_LE: "<=", z3.Z3_OP_GE: ">=", z3.Z3_OP_LT: "<", z3.Z3_OP_GT: ">", z3.Z3_OP_EQ: "=="}[e.decl().kind()]
+        a, b = e.arg(0), e.arg(1)
+        if z3.is_int_value(a) and not z3.is_int_value(b):
+            a, b = b, a
+            op = {"<=": ">=", ">=": "<=", "<": ">", ">": "<", "==": "=="}[op]
+        return "%s%s%s" % (a, op, b)
     if z3.is_true(e):
         return "true"
     if z3.is_false(e):
@@ -881,8 +1088,72 @@ def skeleton(repo=None):
         for it in json.loads(ri.stdout)["items"]:
             if it["kind"] == "enum":
                 enums[it["name"]] = [v["name"] for v in it["variants"]]
+    PURE_FNS.clear()
+    for name, u in units.items():
+        if "::" in name or u.get("writer") or not u["body"] or u["body"][-1]["k"] != "stmt":
+            continue
+        if any(n["k"] != "let" or not IDENT.match(n["pat"].strip()) or n.get("skel") for n in u["body"][:-1]):
+            continue
+        ps = [p_["name"] for p_ in u["params"]]
+        if any(not IDENT.match(x) or x == "self" for x in ps):
+            continue
+        env = {}
+        for n in u["body"][:-1]:
+            env[n["pat"].strip()] = " ".join(subst(toks(n["expr"]), env))
+        body = " ".join(subst(toks(u["body"][-1]["text"]), env))
+        bt = toks(body)
+        if "?" in bt or "!" in bt or "return" in bt or "expect" in bt or "unwrap" in bt or len(bt) > 60:
+            continue
+        PURE_FNS[name] = (ps, body)
     _skel_cache[repo] = (units, enums)
     return units, enums
+
+
+_contracted = None
+
+
+def contracted_units():
+    """names of the functions that have a summary contract (they are NOT inlined into their callers: modular)"""
+    global _contracted
+    if _contracted is None:
+        _contracted = set()
+        sdir = os.path.join(VERIF, "contracts", "summary")
+        for f in os.listdir(sdir) if os.path.isdir(sdir) else []:
+            if f.endswith(".sum"):
+                for line in open(os.path.join(sdir, f)):
+                    if line.startswith("@unit "):
+                        _contracted.add(line.split()[1])
+    return _contracted
+
+
+def count_uses(nf, at):
+    texts = []
+
+    def walk(ns):
+        for n in ns:
+            texts.extend(n["attrs"][1:] if n["kind"] == "let" else n["attrs"])
+            walk(n["children"])
+    walk(nf)
+    texts.extend(at.atoms.keys())
+    texts.extend(at.ints.keys())
+    texts.extend(at.is_atoms.keys())
+    blob = "\x00".join(texts)
+    uses = {}
+    for m in re.finditer(r'\$L(\d+)', blob):
+        k = int(m.group(1))
+        uses[k] = uses.get(k, 0) + 1
+    return uses
+
+
+def two_pass(u, units, enums, options, features, at2=None):
+    at1 = Atoms(enums, options)
+    ev1 = Eval(at1, features, uses=None, units=units, contracted=contracted_units() - {u["unit"]})
+    nf1, _ = ev1.walk(u["body"], {}, {}, z3.BoolVal(True))
+    uses = count_uses(nf1, at1)
+    at = at2 if at2 is not None else Atoms(enums, options)
+    ev2 = Eval(at, features, uses=uses, units=units, contracted=contracted_units() - {u["unit"]})
+    nf2, _ = ev2.walk(u["body"], {}, {}, z3.BoolVal(True))
+    return nf2, at
 
 
 def normal_form(unit_name, features=tuple(sorted(S_FEATURES)), options=(), repo=None):
@@ -890,9 +1161,7 @@ def normal_form(unit_name, features=tuple(sorted(S_FEATURES)), options=(), repo=
     if unit_name not in units:
         raise Undecided("lost anchor: writer function %s not found" % unit_name)
     u = units[unit_name]
-    at = Atoms(enums, options)
-    ev = Eval(at, set(features))
-    nf, alive = ev.walk(u["body"], {}, {}, z3.BoolVal(True))
+    nf, at = two_pass(u, units, enums, options, set(features))
     return nf, at, u
 
 
@@ -911,7 +1180,7 @@ if __name__ == "__main__" and not (len(__import__("sys").argv) > 1 and __import_
 
 
 # ----------------------------------------------------------------------------- summary contracts
-ATOM_PREFIX = ("some:", "empty:", "is:", "atom:")
+ATOM_PREFIX = ("some:", "empty:", "is:", "atom:", "int:")
 
 
 def parse_guard(text, at):
@@ -976,6 +1245,12 @@ def parse_guard(text, at):
             return z3.BoolVal(False)
         if a is None or not a.startswith(ATOM_PREFIX):
             raise ValueError("bad atom '%s' in guard: %s" % (a, text))
+        if a.startswith("int:"):
+            m = re.match(r'^int:(.*?)(<=|>=|==|<|>)(-?\d+)$', a)
+            if not m:
+                raise ValueError("bad integer atom '%s'" % a)
+            x, n = at.I(m.group(1)), int(m.group(3))
+            return {"<=": x <= n, ">=": x >= n, "==": x == n, "<": x < n, ">": x > n}[m.group(2)]
         if a.startswith("is:"):
             body = a[3:]
             x, v = body.rsplit(":", 1)
@@ -1041,56 +1316,106 @@ def model_of(f, theory):
     if s.check() != z3.sat:
         return None
     m = s.model()
-    return {str(d): bool(m[d]) for d in m.decls()}
+    out = {}
+    for d in m.decls():
+        v = m[d]
+        out[str(d)] = bool(v) if z3.is_bool(v) else (v.as_long() if z3.is_int_value(v) else str(v))
+    return out
+
+
+def _generic(nodes, at, code_side, keep_stmt):
+    out = []
+    for n in nodes:
+        if code_side:
+            if (n["kind"] == "stmt" and not keep_stmt) or n["kind"] == "let" or n.get("trivial"):
+                continue
+            out.append({"text": render(n), "g": n["g"], "children": _generic(n["children"], at, True, keep_stmt), "line": n.get("line"), "ln": None})
+        else:
+            if n["text"].startswith("let $"):
+                continue
+            out.append({"text": n["text"], "g": parse_guard(n["guard"], at) if n["guard"] else z3.BoolVal(True),
+                        "children": _generic(n["children"], at, False, keep_stmt), "line": None, "ln": n["ln"], "gtext": n["guard"]})
+    return out
+
+
+def _lets(nodes, code_side, acc):
+    for n in nodes:
+        if code_side and n["kind"] == "let":
+            acc.add(render(n))
+        if not code_side and n["text"].startswith("let $"):
+            acc.add(n["text"])
+        _lets(n["children"], code_side, acc)
+    return acc
+
+
+def canonicalize(nodes, outer, th):
+    """drop dead nodes; merge siblings that write the same thing under mutually exclusive guards (e.g. the same
+    extension written in two match arms, or one refusal split over several `if`s) into one node"""
+    live = []
+    for n in nodes:
+        if model_of(z3.And(outer, n["g"]), th) is not None:
+            live.append(n)
+    i = 0
+    while i < len(live):
+        j = i + 1
+        while j < len(live):
+            a, b = live[i], live[j]
+            if a["text"] == b["text"] and model_of(z3.And(outer, a["g"], b["g"]), th) is None and \
+               all(model_of(z3.And(outer, live[k]["g"], b["g"]), th) is None for k in range(i + 1, j)):
+                for c in a["children"]:
+                    c["g"] = z3.And(a["g"], c["g"])
+                for c in b["children"]:
+                    c["g"] = z3.And(b["g"], c["g"])
+                a["children"] = a["children"] + b["children"]
+                a["g"] = z3.Or(a["g"], b["g"])
+                a["merged"] = True
+                live.pop(j)
+                continue
+            j += 1
+        i += 1
+    return live
 
 
 def compare(code_nodes, want_nodes, at, keep_stmt, path="", outer=None):
     """structural comparison with semantic guard equivalence; raises Mismatch"""
-    outer = z3.BoolVal(True) if outer is None else outer
+    cl, wl = _lets(code_nodes, True, set()), _lets(want_nodes, False, set())
+    if cl != wl:
+        d = sorted(cl ^ wl)
+        raise Mismatch("shared definition differs: %s" % "; ".join(x[:140] for x in d[:2]), model=None)
+    _compare(_generic(code_nodes, at, True, keep_stmt), _generic(want_nodes, at, False, keep_stmt), at, path, z3.BoolVal(True) if outer is None else outer)
+
+
+def _compare(code, want, at, path, outer):
     th = at.theory()
-    code = []
-    for n in code_nodes:
-        if n["kind"] == "stmt" and not keep_stmt:
-            continue
-        if n.get("trivial"):
-            continue
-        # statically dead nodes (guard unsatisfiable under the enclosing guard) are not emissions
-        s = z3.Solver()
-        s.add(*th)
-        s.add(outer, n["g"])
-        if s.check() == z3.unsat:
-            continue
-        code.append(n)
-    i = 0
-    for i in range(max(len(code), len(want_nodes))):
+    code = canonicalize(code, outer, th)
+    want = canonicalize(want, outer, th)
+    for i in range(max(len(code), len(want))):
         if i >= len(code):
-            w = want_nodes[i]
-            raise Mismatch("missing emission: the contract requires `%s`%s at %s but the code emits nothing there" % (w["text"], (" when " + w["guard"]) if w["guard"] else "", path or "top level"),
-                           model=model_of(z3.And(outer, parse_guard(w["guard"], at)) if w["guard"] else outer, at.theory()), cline=w["ln"])
+            w = want[i]
+            raise Mismatch("missing emission: the contract requires `%s`%s at %s but the code emits nothing there" % (w["text"], (" when " + w.get("gtext", "")) if w.get("gtext") else "", path or "top level"),
+                           model=model_of(z3.And(outer, w["g"]), th), cline=w["ln"])
         c = code[i]
-        if i < len(want_nodes) and render(c) != want_nodes[i]["text"]:
+        if i < len(want) and c["text"] != want[i]["text"]:
             # emissions under mutually exclusive guards may appear in any order in the source (e.g. reordered match
             # arms): look ahead for the expected line and move it here if everything it jumps over excludes it
             for j in range(i + 1, len(code)):
-                if render(code[j]) == want_nodes[i]["text"]:
+                if code[j]["text"] == want[i]["text"]:
                     if all(model_of(z3.And(outer, code[k]["g"], code[j]["g"]), th) is None for k in range(i, j)):
                         code.insert(i, code.pop(j))
                         c = code[i]
                     break
-        if i >= len(want_nodes):
-            raise Mismatch("extra emission: the code emits `%s` (line %s) at %s which the contract does not allow" % (render(c), c.get("line"), path or "top level"),
-                           model=model_of(z3.And(outer, c["g"]), at.theory()), line=c.get("line"))
-        w = want_nodes[i]
-        if render(c) != w["text"]:
-            raise Mismatch("emission differs at %s: code (line %s) `%s` — contract (line %s) `%s`" % (path or "top level", c.get("line"), render(c), w["ln"], w["text"]),
-                           model=model_of(z3.And(outer, c["g"]), at.theory()), line=c.get("line"), cline=w["ln"])
-        wg = parse_guard(w["guard"], at) if w["guard"] else z3.BoolVal(True)
-        th = at.theory()
-        diff = model_of(z3.And(outer, z3.Xor(c["g"], wg)), th)
+        if i >= len(want):
+            raise Mismatch("extra emission: the code emits `%s` (line %s) at %s which the contract does not allow" % (c["text"], c.get("line"), path or "top level"),
+                           model=model_of(z3.And(outer, c["g"]), th), line=c.get("line"))
+        w = want[i]
+        if c["text"] != w["text"]:
+            raise Mismatch("emission differs at %s: code (line %s) `%s` — contract (line %s) `%s`" % (path or "top level", c.get("line"), c["text"], w["ln"], w["text"]),
+                           model=model_of(z3.And(outer, c["g"]), th), line=c.get("line"), cline=w["ln"])
+        diff = model_of(z3.And(outer, z3.Xor(c["g"], w["g"])), th)
         if diff is not None:
-            raise Mismatch("guard differs for `%s` (code line %s): code emits it when [%s], the contract requires [%s]" % (w["text"], c.get("line"), fmt_guard(c["g"], th) or "always", w["guard"] or "always"),
+            raise Mismatch("guard differs for `%s` (code line %s): code emits it when [%s], the contract requires [%s]" % (w["text"], c.get("line"), fmt_guard(c["g"], th) or "always", fmt_guard(w["g"], th) or "always"),
                            model=diff, line=c.get("line"), cline=w["ln"])
-        compare(c["children"], w["children"], at, keep_stmt, path + "/" + w["text"].split("(")[0], z3.And(outer, c["g"]))
+        _compare(c["children"], w["children"], at, path + "/" + w["text"].split("(")[0], z3.And(outer, c["g"]))
 
 
 def emits_guard(nodes, at, callee_emits):
@@ -1155,8 +1480,7 @@ class Ctx:
         if unit not in self.nf:
             if unit not in self.units:
                 raise Undecided("lost anchor: function %s not found" % unit)
-            ev = Eval(self.at, set(S_FEATURES))
-            self.nf[unit], _ = ev.walk(self.units[unit]["body"], {}, {}, z3.BoolVal(True))
+            self.nf[unit], _ = two_pass(self.units[unit], self.units, self.enums, self.at.option_exprs, set(S_FEATURES), at2=self.at)
         return self.nf[unit]
 
     def theory(self):
